@@ -270,6 +270,10 @@ func (l *entryLog) seekEntry(raftIndex uint64) (entry, error) {
 
 	fidx, off := l.slotGe(raftIndex)
 	if off == -1 {
+		if raftIndex > l.lastIndex() {
+			// Nothing at or after raftIndex was ever kept: the log is empty.
+			return emptyEntry, raft.ErrUnavailable
+		}
 		// The entry is not in the log because it was already processed and compacted.
 		return emptyEntry, raft.ErrCompacted
 	} else if off >= maxNumEntries {
